@@ -69,7 +69,81 @@ def _find_arm(chain_if, cls_names):
     return None
 
 
+def _x4(ctx):
+    R = "C30-X4"
+    ctx.doc(R, "the stride handed to the topology model is read from the fan-out table under the key it was written with: (component, Einsum) -> spatial dimension NAME of the loop")
+    SY = "accelforge/model/_looptree/reuse/symbolic/_symbolic.py"
+    wr = ctx.func(SY, "analyze_spatial", R)
+    wdefs = single_defs(wr.node, wr.params())
+    for nf in [x for x in ast.walk(wr.node) if isinstance(x, (ast.FunctionDef, ast.AsyncFunctionDef)) and x is not wr.node]:
+        for k_, v_ in single_defs(nf, [a.arg for a in nf.args.args]).items():
+            wdefs.setdefault(k_, v_)
+    winner = None
+    for st in wr.stmts(into_nested=True):
+        if isinstance(st, ast.AugAssign) and isinstance(st.target, ast.Subscript) and norm(st.target.value) == "fanout":
+            k = st.target.slice
+            if isinstance(k, ast.Name) and wdefs.get(k.id) is not None:
+                k = wdefs[k.id]
+            winner = k
+    ctx.require(isinstance(winner, ast.Attribute), R, f"writer's inner key `{norm(winner) if winner is not None else None}`")
+    wouter = wdefs.get("my_key")
+    ctx.require(isinstance(wouter, ast.Tuple) and len(wouter.elts) == 2 and isinstance(wouter.elts[0], ast.Attribute), R, "writer's outer key (component, einsum)")
+    rd = ctx.func(NW, "NetworkAnalyzer.accumulate_child_result", R)
+    gets = [c for c in rd.calls("get")]
+    outer = [c for c in gets if isinstance(c.func.value, ast.Attribute) and c.func.value.attr == "fanout"]
+    ctx.require(len(outer) == 1 and outer[0].args and isinstance(outer[0].args[0], ast.Tuple), R, f"reads of the fan-out table in the network analyzer: {len(outer)}")
+    ok = isinstance(outer[0].args[0].elts[0], ast.Attribute) and outer[0].args[0].elts[0].attr == wouter.elts[0].attr
+    ctx.check(ok, R, rd, outer[0], f"the table is read under `{norm(outer[0].args[0])}` but written under `{norm(wouter)}`", f"outer key ({wouter.elts[0].attr}, einsum) on both sides")
+    # the inner lookup: either chained on the outer get or on the local bound to it
+    inner = [c for c in gets if c is not outer[0] and (c.func.value is outer[0] or (isinstance(c.func.value, ast.Name) and any(
+        isinstance(st, ast.Assign) and isinstance(st.targets[0], ast.Name) and st.targets[0].id == c.func.value.id and st.value is outer[0] for st in rd.stmts())))]
+    ctx.require(len(inner) == 1 and inner[0].args, R, f"inner lookups of the fan-out table: {len(inner)}")
+    k = inner[0].args[0]
+    ok = isinstance(k, ast.Attribute) and k.attr == winner.attr
+    ctx.check(ok, R, rd, inner[0], f"the stride is looked up under `{norm(k)}` although the table is filled under the loop's `{winner.attr}` (`{norm(winner)}`): the lookup never hits, the stride silently defaults to 1 "
+              "and every mesh transfer below a split spatial dimension is costed too low", f"inner key .{winner.attr} on both sides")
+    d = inner[0].args[1] if len(inner[0].args) > 1 else None
+    ctx.check(isinstance(d, ast.Constant) and d.value == 1, R, rd, inner[0], "a missing entry does not mean stride 1", "no loop below => stride 1")
+    ctx.floor(R, 3)
+
+
+def _x5(ctx):
+    R = "C30-X5"
+    ctx.doc(R, "a memoised helper of the network model keys its cache on every parameter its result depends on (today there is no such cache; the rule arms itself when one appears)")
+    m = ctx.module(NW, R)
+    sites = 0
+    for fi in m.funcs.values():
+        params = [p for p in fi.params() if p not in ("self", "cls")]
+        keys = {}
+        for st in fi.stmts():
+            for t, v, _ in assigned_targets(st):
+                if isinstance(t, ast.Name) and isinstance(v, ast.Tuple):
+                    keys[t.id] = v
+        for st in fi.stmts():
+            for t, v, _ in assigned_targets(st):
+                # D[key] = value with `key` a local tuple, and an early `return D[key]` / D.get(key)
+                if isinstance(t, ast.Subscript) and isinstance(t.slice, ast.Name) and t.slice.id in keys:
+                    cache = norm(t.value)
+                    hits = [r for r in fi.stmts() if isinstance(r, ast.Return) and r.value is not None and cache in norm(r.value) and t.slice.id in norm(r.value)]
+                    if not hits:
+                        continue
+                    sites += 1
+                    in_key = {x.id for x in ast.walk(keys[t.slice.id]) if isinstance(x, ast.Name)}
+                    read = {x.id for st2 in fi.stmts() for x in ast.walk(st2) if isinstance(x, ast.Name) and isinstance(x.ctx, ast.Load)}
+                    missing = [p for p in params if p in read and p not in in_key]
+                    ctx.check(not missing, R, fi, st, f"the cache `{cache}` is keyed on {sorted(in_key)} but the cached value also depends on {missing}: after a call for one source component the same (dimension, fanout, stride) "
+                              "returns that component's result for every other one -- the transfer cost depends on the call history", f"cache `{cache}` keyed on all of {params}")
+    if sites == 0:
+        ctx.ok(R, m, None, "no memoised helper in the network model (0 sites)", nontrivial=False)
+
+
 def check(ctx):
+    _x4(ctx)
+    _x5(ctx)
+    _check_core(ctx)
+
+
+def _check_core(ctx):
     m = ctx.module(NW, "C30")
     # ---------------- X1
     R = "C30-X1"
@@ -190,6 +264,8 @@ def check(ctx):
 
 
 VARIANTS = [
+    {"kind": "F", "name": "memo-keyed-without-the-source", "rule": "C30-X5", "edits": [(NW, "def multicast_cost(", "_MEMO: dict = {}\n\n\ndef _memo_binding(shape_repeats, last_fanout, src_component, dim_name):\n    key = (dim_name, shape_repeats, last_fanout)\n    if key in _MEMO:\n        return _MEMO[key]\n    r = src_component._get_physical_fanout_along(dim_name) * shape_repeats\n    _MEMO[key] = r\n    return r\n\n\ndef multicast_cost(")]},
+    {"kind": "F", "name": "stride-read-under-rank-variable", "rule": "C30-X4", "edits": [(NW, "            last_fanout = last_fanout.get(self.node.name, 1)", "            last_fanout = last_fanout.get(self.node.rank_variable, 1)")]},
     {"kind": "F", "name": "remove-all-to-all-from-registry", "rule": "C30-X1", "edits": [(NW, "    TopologySpec.ALL_TO_ALL: AllToAllTopologyModel,\n", "")]},
     {"kind": "F", "name": "multicast-n-not-n-minus-1", "rule": "C30-X3", "edits": [(NW, "    return (n_dsts - 1) * stride", "    return (n_dsts) * stride")]},
     {"kind": "F", "name": "arithmetic-sum-off-by-one", "rule": "C30-X3", "edits": [(NW, "    return 0.5 * (n + 1) * n", "    return 0.5 * (n - 1) * n")]},
